@@ -506,6 +506,7 @@ class Contract:
         return self
 
     observe_ = None
+    native_context = None  # callable(bindings, recorder) -> context manager active while the real function is replayed
     returns_fn = None  # callable(I, bindings) -> result value at call sites (shape from live tables)
     pre_call = None  # callable(I, bindings): may raise what the callee raises before doing anything
     native_default = None  # callable(self, args, kwargs) -> what the stubbed callee answers in a replay beyond the script
@@ -592,7 +593,10 @@ class Contract:
 
 class LoopSpec:
     def __init__(self, invariant=None, modifies=None, variant=None, fold=None, ghost=None, invariants=None,
-                 each=None, at_entry=None, iteration_raises=(), generic=None):
+                 each=None, at_entry=None, iteration_raises=(), generic=None, each_old="entry"):
+        # each_old: what old(...) means inside `each` clauses of a symbolic-range loop: the state at function
+        # "entry" (default) or at the "head" of the iteration being verified
+        self.each_old = each_old
         # generic: a Ty -- the body is verified once for an arbitrary element of that type (a superset of
         # the container's elements) instead of once per element
         self.generic = generic
